@@ -209,3 +209,13 @@ more("C15", "Before every set-up macro the jwt_value_t holds leftovers of an ear
 more("C16", "The driver runs under the tracking allocator installed through jwt_set_alloc: every block freed must have come from it (foreign free), and freed blocks are pattern-filled and checked when the next case begins (write after free).")
 more("C17", "Freed blocks are filled with 0xDD and kept until the scenario run is over: a changed pattern is a write after free, also when it happens inside the uninstrumented JSON library (~650 000 blocks checked per quick run).")
 more("C20", "Alg-option matrix: -a/--algorithm in every spelling x keys with and without an alg of their own x HS256/384/512 tokens; what jwt_checker_setkey(option alg, key) and jwt_checker_verify say (helper) is what the tool's exit status must say.")
+
+# ---- round 13 (slips on error and clean-up paths) ----
+more("C03", "The key list includes two keys that do not import (a zero-length oct key, an X25519 OKP key): items in error state, still offered to setkey and to callbacks.")
+more("C06", "The generator runs under the harness' tracking allocator (jwt_set_alloc): after every token (accepted or refused by each of the 22 checkers) the number of live blocks taken from it must be what it was before; foreign frees and writes after free are reported as well.")
+more("C08", "An eighth of the alg members name a registered JOSE algorithm the library does not implement, or an unregistered string (RSA-OAEP-256, ECDH-ES, dir, Ed25519, ''): kid, use and key_ops still count.")
+more("C10", "JSON values include texts the builder refuses (truncated, empty, trailing text), also as replacements of existing members and inside callbacks: a refused set changes nothing.")
+more("C13", "The table of tracked blocks stores disguised pointers, so LeakSanitizer still reports what a reused object keeps from the tokens it has seen.")
+more("C15", "After a set refused with EXIST the very same request is repeated with the replace flag switched on, without setting the struct up anew (half of such refusals).")
+more("C18", "A third of the callback look-ups name a key nobody has (the look-up misses, the callback refuses): a refusal must not write to the shared keyring.")
+more("C20", "Every second multi-key round puts one or two entries that do not import between, before or after the good ones: every good key is still written back.")
